@@ -86,7 +86,7 @@ func c19TouchesID(c c19AccCase, idx int) bool {
 
 // (the three event formats - v1/v2, v3..v11, v12 - have accessors of their own: each gets about a third)
 var c19AccVersions = []string{"10", "12", "3", "4", "11", "12", "6", "9", "org.matrix.hydra.11", "org.matrix.msc4014", "1", "2", "12", "org.matrix.hydra.11", "1", "2"}
-var c19AccKinds = []string{"message", "message-long-sticky", "member", "create", "power", "power-full", "joinrules", "histvis", "redaction"}
+var c19AccKinds = []string{"message", "message-long-sticky", "member", "create", "power", "power-full", "joinrules", "histvis", "redaction", "redaction-in-content", "redaction-no-target"}
 
 func c19AccGen(t *rapid.T) c19AccCase {
 	c := c19AccCase{
@@ -97,10 +97,14 @@ func c19AccGen(t *rapid.T) c19AccCase {
 	}
 	k := rapid.IntRange(2, 8).Draw(t, "k")
 	// three program shapes: everybody asks for the ID first; nobody touches the ID; free mix
-	shape := rapid.SampledFrom([]int{0, 1, 2, 3, 4, 5, 4, 5}).Draw(t, "shape")
+	shape := rapid.SampledFrom([]int{0, 1, 2, 3, 4, 5, 4, 5, 6, 6}).Draw(t, "shape")
 	// shapes 4, 5: every goroutine starts with the SAME accessor (any of them may keep a lazily
 	// computed value or tidy a slice in place), then goes its own way
 	same := rapid.IntRange(0, len(c19Accessors)-1).Draw(t, "sameAcc")
+	if shape == 6 {
+		// shape 6: ... and that accessor is one that has work to do for this kind of event
+		same = c19AccIndex(rapid.SampledFrom(c19KindAccessors(c.Kind)).Draw(t, "kindAcc"))
+	}
 	for g := 0; g < k; g++ {
 		n := rapid.IntRange(1, 3).Draw(t, "n")
 		var prog []int
@@ -115,7 +119,7 @@ func c19AccGen(t *rapid.T) c19AccCase {
 				for c19TouchesID(c, idx) {
 					idx = (idx + 3) % len(c19Accessors)
 				}
-			case 4, 5:
+			case 4, 5, 6:
 				if i == 0 {
 					idx = same
 				}
@@ -125,6 +129,34 @@ func c19AccGen(t *rapid.T) c19AccCase {
 		c.Progs = append(c.Progs, prog)
 	}
 	return c
+}
+
+func c19AccIndex(name string) int {
+	for i, a := range c19Accessors {
+		if a.Name == name {
+			return i
+		}
+	}
+	return 0
+}
+
+// the accessors that decode something out of this kind of event
+func c19KindAccessors(kind string) []string {
+	switch kind {
+	case "member":
+		return []string{"Membership", "StateKey", "StateKeyEquals"}
+	case "power", "power-full":
+		return []string{"PowerLevels"}
+	case "joinrules":
+		return []string{"JoinRule"}
+	case "histvis":
+		return []string{"HistoryVisibility"}
+	case "redaction", "redaction-in-content", "redaction-no-target":
+		return []string{"Redacts", "Redacts", "Content"}
+	case "create":
+		return []string{"RoomID", "EventID", "AuthEventIDs"}
+	}
+	return []string{"IsSticky", "StickyEndTime", "Unsigned", "AuthEventIDs", "RoomID"}
 }
 
 var c19AccKey = ed25519.NewKeyFromSeed([]byte("c19-accessor-signing-key-seed-00"))
@@ -201,6 +233,11 @@ func c19AccBuild(c c19AccCase) ([]byte, IRoomVersion, error) {
 		ev, err = c19AccBuildOne(ver, roomID, spec.MRoomHistoryVisibility, &empty, `{"history_visibility":"shared"}`, "", 3, prev, auth)
 	case "redaction":
 		ev, err = c19AccBuildOne(ver, roomID, spec.MRoomRedaction, nil, `{"reason":"c19","redacts":"$c19target:c19.example"}`, "$c19target:c19.example", 4, prev, auth)
+	case "redaction-in-content":
+		// the form room version 11 introduced: the target is named in the content only
+		ev, err = c19AccBuildOne(ver, roomID, spec.MRoomRedaction, nil, `{"reason":"c19","redacts":"$c19target:c19.example"}`, "", 4, prev, auth)
+	case "redaction-no-target":
+		ev, err = c19AccBuildOne(ver, roomID, spec.MRoomRedaction, nil, `{"reason":"c19"}`, "", 4, prev, auth)
 	default:
 		ev, err = c19AccBuildOne(ver, roomID, "m.room.message", nil, `{"body":"hello","msgtype":"m.text","sticky":{"duration_ms":1000}}`, "", 4, prev, auth)
 	}
